@@ -319,6 +319,27 @@ def run(run, tier, seed, replay=None):
                                     "static int\tg_y = (1 + 2);"]):
             base = HDR + "\n" + glob_ + "\n\n" + four
             results.append(("corpus/c append a fifth function after global %d" % gi, eval_append("k.c", base, "void\tft_e(void)\n{\n}")))
+        # declarations whose braces sit in unusual places between two functions (brace on the keyword line, on the name
+        # line, type definitions back to back): a comment line at every top-level point after them
+        fa = "int\tft_a(int x)\n{\n\tif (x == 7)\n\t\treturn (1);\n\treturn(x);\n}\n"
+        fb = "int\tft_b(void)\n{\n\treturn (1);\n}\n"
+        for ti, mid in enumerate(["typedef struct s_pair {\n\tint\ta;\n\tint\tb;\n}\tt_pair;\n",
+                                  "typedef struct s_pair\n{\n\tint\ta;\n}\tt_pair;\n",
+                                  "struct s_pair {\n\tint\ta;\n};\n",
+                                  "typedef enum e_k {\n\tA,\n\tB\n}\tt_k;\n",
+                                  "typedef union u_v {\n\tint\ta;\n\tchar\tb;\n}\tt_v;\n\ntypedef struct s_q {\n\tint\tz;\n}\tt_q;\n",
+                                  "static int\tg_t[2] = {\n\t1,\n\t2\n};\n"]):
+            base_src = HDR + "\n" + fa + "\n" + mid + "\n" + fb
+            bb, st = analyse_stmts(base_src, "k.c")
+            sts = line_states(base_src, "k.c")
+            if bb["kind"] != "ok" or sts is None:
+                results.append(("corpus/b comment after a type definition %d" % ti, "skipped"))
+                continue
+            msc = mis_scoped(sts, st)
+            for L in insertion_points(base_src, sts, st):
+                for c in ("// comment", "/* c */"):
+                    results.append(("corpus/b comment after a type definition %d%s" % (ti, " (mis-scoped)" if msc else ""),
+                                    eval_comment("k.c", base_src, L, c, bb, msc)))
         nfiles = 90 if quick else 1000
         jobs = [(seed * 100003 + i, i, 8 if quick else 0) for i in range(nfiles)]
         with mp.Pool(common.NPROC, initializer=_init) as pool:
